@@ -151,3 +151,38 @@ Proof.
   - apply chunks_numbers.
   - apply chunks_nonempty_bodies. exact Hn.
 Qed.
+
+(* ---- the size invariant of the setters ---- *)
+Definition cfg_good (f : cfg) : Prop :=
+  S (zoz (cfg_params f)) <= f_size f /\ S (noz (cfg_params f)) <= f_size f.
+
+Lemma reclamp_good : forall f, cfg_good (reclamp f).
+Proof.
+  intros f. unfold cfg_good, reclamp, eff_size, min_size, zoz, noz, cfg_params. cbn [f_code f_curt f_size r_code r_curt r_size].
+  split; lia.
+Qed.
+
+Lemma cfg_step_good : forall f o, cfg_good (cfg_step f o).
+Proof. intros f []; apply reclamp_good. Qed.
+
+Theorem cfg_run_good : forall c curt n h, cfg_good (cfg_run c curt n h).
+Proof.
+  intros c curt n h. unfold cfg_run. destruct h as [|o h] using rev_ind.
+  - apply reclamp_good.
+  - rewrite fold_left_app. apply cfg_step_good.
+Qed.
+
+(* .size never shrinks under the refreshes *)
+Lemma cfg_step_mono : forall f o, match o with SetSize _ => True | _ => f_size f <= f_size (cfg_step f o) end.
+Proof. intros f []; cbn; unfold eff_size; try lia; exact I. Qed.
+
+(* with such a configuration both body sizes of rend are positive and rend
+   does not take its failing branches *)
+Theorem cfg_bodies_positive : forall c curt n h mid vid,
+  let f := cfg_run c curt n h in
+  let p := {| r_code := f_code f; r_curt := f_curt f; r_size := f_size f; r_mid := mid; r_vid := vid |} in
+  1 <= zbz p /\ 1 <= nbz p.
+Proof.
+  intros c curt n h mid vid f p. destruct (cfg_run_good c curt n h) as [A B]. fold f in A, B.
+  unfold zbz, nbz, p, zoz, noz, cfg_params in *. cbn [r_code r_curt r_size f_code f_curt f_size] in *. lia.
+Qed.
